@@ -39,6 +39,7 @@ MDNS = "224.0.0.251"
 QUERIER = "10.9.9.9"
 D11_SIG = "C16:qu-question-double-multicast"
 D11B_SIG = "C16:qu-exempt-query-multicast-path-repeated"
+OWN_QU = "own-qu-probe"   # not a finding: a label for deliveries whose allowed extra unicast answer feeds back into the instance
 
 
 # ------------------------------------------------------------------------------------------
@@ -130,7 +131,11 @@ def gen_case(seed, idx, qu_ok):
         "n_services": rng.choice([1, 1, 2]),
         "browse_own": rng.random() < 0.3,
         "lookup": rng.random() < 0.4,
-        "start": rng.choice([1, 40, 400, 2000, 31000, 1200000, 2000000]),
+        "start": rng.choice([1, 40, 400, 2000, 31000, 100000, 1200000, 2000000]),
+        # PTR/TXT TTL of the registered services (below the 1125 s PTR floor of the cache in two of three cases with a value)
+        "other_ttl": rng.choice([None, None, 60, 300, 4500]),
+        # the socket hands over 4-tuple sources, as an IPv6 socket does
+        "v6_tuple": rng.random() < 0.25,
         "maxdelay": rng.choice([0, 5, 20]),
         "tail": rng.choice([15000, 15000, 130000]),
         # the second copy of a *response* may arrive later (1..999 ms) as long as nothing else arrives in between
@@ -227,6 +232,63 @@ def rkey(r):
     return " ".join(tok[:4] + tok[7:])
 
 
+def ident(r):
+    """identity of a record, computed here (name and targets lower-cased, no TTL/flush/creation time, no scope id)"""
+    from zeroconf import _dns as d
+
+    if isinstance(r, d.DNSAddress):
+        rd = ("a", bytes(r.address))
+    elif isinstance(r, d.DNSPointer):
+        rd = ("p", r.alias.lower())
+    elif isinstance(r, d.DNSText):
+        rd = ("t", bytes(r.text))
+    elif isinstance(r, d.DNSService):
+        rd = ("s", r.priority, r.weight, r.port, r.server.lower())
+    elif isinstance(r, d.DNSNsec):
+        rd = ("n", r.next_name.lower(), tuple(sorted(r.rdtypes)))
+    elif isinstance(r, d.DNSHinfo):
+        rd = ("h", r.cpu, r.os)
+    else:
+        rd = ("?", repr(r))
+    return (r.name.lower(), r.type, r.class_, rd)
+
+
+def shadow_apply(shadow, data, now):
+    """an arrival history of our own (RFC 6762 section 10 as the record manager applies it): when each record was last
+    heard and with which TTL -- PTR floor 1125 s, goodbyes remove, a cache-flush record makes the other records of its
+    name/type/class that are older than 1 s expire in 1 s.  It decides, independently of the implementation's cache,
+    whether a record "was multicast within a quarter of its TTL"."""
+    from zeroconf import DNSIncoming
+
+    m = DNSIncoming(data)
+    if not m.valid or m.is_query():
+        return
+    answers = m.answers()
+    here = {ident(r) for r in answers}
+    uniq, removes = set(), []
+    for r in answers:
+        ttl = int(r.ttl)
+        if ttl and r.type == 12 and ttl < 1125:
+            ttl = 1125
+        if r.unique:
+            uniq.add((r.name.lower(), r.type, r.class_))
+        k = ident(r)
+        if ttl > 0:
+            shadow[k] = (now, ttl)
+        elif k in shadow:
+            removes.append(k)
+    for k, v in list(shadow.items()):
+        if k[:3] in uniq and k not in here and now - v[0] > 1000:
+            shadow[k] = (now, 1)
+    for k in removes:
+        shadow.pop(k, None)
+
+
+def shadow_recent(shadow, rec, now):
+    v = shadow.get(ident(rec))
+    return v is not None and v[0] + 250 * v[1] > now
+
+
 def downstream_digest(zc):
     """what a query could have changed downstream: the cache (with creation times), the two answer queues"""
     cache = sorted(C.rec_line(r, created=int(r.created)) for rs in zc.cache.cache.values() for r in rs)
@@ -234,7 +296,7 @@ def downstream_digest(zc):
     return {"cache": cache, "queues": queues}
 
 
-def qu_signature(zc, data, port, now):
+def qu_signature(zc, data, port, now, shadow):
     """the D11 signature evaluated on the instance just before the datagram is processed:
     query with a QU question, multicast source, and some answer to a QU question not multicast within TTL/4;
     also reports whether a QM question of the same packet has answers (mixed)"""
@@ -242,7 +304,7 @@ def qu_signature(zc, data, port, now):
     from zeroconf._dns import DNSRRSet
 
     m = DNSIncoming(data, (QUERIER, port), None, now)
-    out = {"qu": False, "qu_not_recent": False, "qm_answers": False, "qu_answers": False, "tc": False, "remulticast": []}
+    out = {"qu": False, "qu_not_recent": False, "qm_answers": False, "qu_answers": False, "tc": False, "remulticast": [], "recency_mismatch": []}
     # "has a QU question" is decided here from the decoded questions' own top class bit, not from the parser's summary flag
     if not m.valid or not m.is_query() or not any(q.unique for q in m.questions) or not zc.registry.has_entries:
         return out
@@ -256,8 +318,14 @@ def qu_signature(zc, data, port, now):
             if q.unique and port == 5353:
                 for rec in ans:
                     out["qu_answers"] = True
+                    # "not multicast within a quarter of its TTL" is decided from the arrival history kept by the harness,
+                    # *not* from the implementation's cache: a defect that makes the cache forget (wrong TTL on refresh, a
+                    # record stored under another identity) must not move the delivery into the recorded finding's class
                     e = zc.cache.async_get_unique(rec)
-                    if e is None or not e.is_recent(now):
+                    impl_recent = e is not None and e.is_recent(now)
+                    if impl_recent != shadow_recent(shadow, rec, now):
+                        out["recency_mismatch"].append([rkey(rec), impl_recent])
+                    if not shadow_recent(shadow, rec, now):
                         out["qu_not_recent"] = True
                         out["remulticast"] += [rkey(x) for x in [rec] + list(ans[rec])]   # D11: the record and its additionals
             elif ans:
@@ -297,7 +365,7 @@ def simulate(case, dupmask, skip_d11=False):
 
     sim.randint = lib_randint              # picked up by Sim.run's patches
     sim.net_rng = KeyedRng(sim, "net")
-    obs = {"sends": [], "callbacks": [], "lblocks": [], "routes": [], "sigs": {}, "rul_calls": 0, "deliveries": [], "d11": [], "d11sig": {}, "second_copies": [], "gap_copies": 0}
+    obs = {"sends": [], "callbacks": [], "lblocks": [], "routes": [], "sigs": {}, "rul_calls": 0, "deliveries": [], "d11": [], "d11sig": {}, "second_copies": [], "gap_copies": 0, "recency_mismatch": []}
     saved = []
 
     class L(ServiceListener):
@@ -404,6 +472,7 @@ def simulate(case, dupmask, skip_d11=False):
         count = {"n": 0}
         orig_deliver = a.deliver
         pending_copies = []
+        shadow = {}
 
         def deliver_once(data, src):
             if a.transport is None or a.transport.closed:
@@ -413,7 +482,8 @@ def simulate(case, dupmask, skip_d11=False):
             ndraw = len(sim.draws)
             entries = bool(zc.registry.has_entries)
             cur["down"] = []
-            lst.datagram_received(data, src)
+            # an IPv6 socket hands over (address, port, flow, scope id): nothing may depend on the extra two
+            lst.datagram_received(data, (src[0], src[1], 0, 3) if case.get("v6_tuple") else src)
             down, cur["down"] = cur["down"], None
             processed = lst.last_message is not before
             if not processed:
@@ -429,6 +499,8 @@ def simulate(case, dupmask, skip_d11=False):
             tcdraw = [d for d in draws if d[0] == 400 and d[1] == 500] if processed and tag.startswith("deferred:") else []
             obs["lblocks"].append({"op": "recv", "t": sim.now(), "data": data.hex(), "addr": src[0], "port": src[1], "entries": entries,
                                    "tcdraw": tcdraw[0] if tcdraw else None, "tag": tag, "timers": timers_of(lst), "deferred": deferred_of(lst)})
+            if processed and tag == "response":
+                shadow_apply(shadow, data, float(sim.loop.ms))
             return processed
 
         def deliver(data, src):
@@ -440,11 +512,18 @@ def simulate(case, dupmask, skip_d11=False):
             obs["deliveries"].append(i)
             twice = False
             if dupmask is not None:
-                sg = qu_signature(zc, data, src[1], float(sim.loop.ms))
-                d11 = known_sig(sg) is not None and not sg["tc"]
+                sg = qu_signature(zc, data, src[1], float(sim.loop.ms), shadow)
+                if sg["recency_mismatch"]:
+                    obs["recency_mismatch"].append({"key": i, "t": sim.now(), "records": sg["recency_mismatch"], "data": data.hex()})
+                # a QU query of the instance itself (its looped-back probe): the allowed second unicast answer goes to the
+                # instance -- an arrival the reference run does not have, which refreshes its cache and moves whatever depends
+                # on it (refresh queries of a browser of its own type).  Such deliveries are spared in the main comparison like
+                # the ones matching a finding, and get the local oracle on their second copy in the run that spares nothing.
+                own_qu = sg["qu"] and src[0] == "10.0.0.1" and not sg["tc"]
+                d11 = (known_sig(sg) is not None and not sg["tc"]) or own_qu
                 if d11:
                     obs["d11"].append(i)
-                    obs["d11sig"][i] = known_sig(sg)
+                    obs["d11sig"][i] = known_sig(sg) or OWN_QU
                 twice = ((dupmask == "all" or (isinstance(dupmask, (set, frozenset)) and i in dupmask)) and not (skip_d11 and d11)
                          and sim.now() >= case.get("dup_after", 0))
                 if twice:
@@ -491,8 +570,9 @@ def simulate(case, dupmask, skip_d11=False):
             def async_update_records_complete(self):
                 pass
 
+        ttl_kw = {} if not case.get("other_ttl") else {"other_ttl": case["other_ttl"]}
         infos = [ServiceInfo(TA, "s%d.%s" % (i + 1, TA), 80 + i, addresses=[socket.inet_aton("10.0.0.1")], server="ha.local.",
-                             properties={"k": "v%d" % i}) for i in range(case["n_services"])]
+                             properties={"k": "v%d" % i}, **ttl_kw) for i in range(case["n_services"])]
         for info in infos:
             t = await zc.async_register_service(info)
             await t
@@ -702,6 +782,8 @@ def classify(case, ref, skip_d11):
     f = features(bytes.fromhex(sg["data"])) if "data" in sg else {}
     if known_sig(sg) is not None:
         return known_sig(sg), sg
+    if sg.get("qu") and sg.get("src", [""])[0] == "10.0.0.1":
+        return OWN_QU, sg
     if sg.get("qu"):
         return "C16:qu-query-duplicate-changes-more-than-unicast", sg
     if f.get("qu"):
@@ -733,6 +815,8 @@ def second_copy_findings(obs):
         if len(uni) > max(1, n_first_uni):
             bad.append(("C16:second-copy-unicast-not-a-repeat", "the second copy of a QU query was answered by %d unicast datagrams (the first by %d)" % (len(uni), n_first_uni), where))
         extra_mc = [k for x in mc if len(x[3]) > 2 for k in x[3][2] if rkey(k) not in allowed_mc]
+        if mc and not sc["sig"] and not sc["tc"]:
+            bad.append(("C16:second-copy-multicasts", "the second copy of a QU query whose answers were all heard within a quarter of their TTL was answered by multicast again", where))
         if extra_mc and sc["sig"]:
             bad.append(("C16:second-copy-multicasts-unpredicted-records", "under %s the second copy multicast %d records the finding does not predict" % (sc["sig"], len(extra_mc)), where))
         if not sc["cache_same"]:
@@ -770,6 +854,9 @@ def run_case(res, case, ctx, lines_acc):
     for sig_, what_, where_ in second_copy_findings(dup):
         violate_limited(res, sig_, what_, {"case": case, "where": where_})
     res.count("second-copies-of-QU-queries-checked", len(dup["second_copies"]))
+    for mm in dup["recency_mismatch"][:1]:
+        res.disagree("c16recent", {"case": case, "delivery": mm}, "the cache's quarter-TTL test on %s" % mm["records"][:2],
+                     "the arrival history kept by the harness says the opposite")
     self_extra = any(is_unicast(x) and x[1] == "10.0.0.1" for x in dup["sends"]) and len(dup["sends"]) != len(ref["sends"])
     if diff is None and not self_extra and ref["rul_calls"] != dup["rul_calls"]:
         violate_limited(res, "C16:record-update-listener-calls-differ", "RecordUpdateListener.async_update_records was called %d times in the reference run, %d times with duplicates"
@@ -807,16 +894,19 @@ def run_case(res, case, ctx, lines_acc):
             if sig.endswith("no-single-culprit"):
                 # the main run (everything duplicated except deliveries matching a recorded finding) was equivalent, so the
                 # difference needs several of those deliveries together: attribute it by duplicating them alone, per finding
-                by = {k: {i for i, v in dup["d11sig"].items() if v == k} for k in (D11B_SIG, D11_SIG)}
-                for k in (D11B_SIG, D11_SIG):
+                by = {k: {i for i, v in dup["d11sig"].items() if v == k} for k in (D11B_SIG, D11_SIG, OWN_QU)}
+                for k in (D11B_SIG, D11_SIG, OWN_QU):
                     if by[k] and compare(ref, simulate(case, by[k])) is not None:
                         sig = k
                         break
                 else:
-                    if compare(ref, simulate(case, by[D11B_SIG] | by[D11_SIG])) is not None:
-                        sig = D11B_SIG if by[D11B_SIG] else D11_SIG
+                    if compare(ref, simulate(case, by[D11B_SIG] | by[D11_SIG] | by[OWN_QU])) is not None:
+                        sig = D11B_SIG if by[D11B_SIG] else (D11_SIG if by[D11_SIG] else OWN_QU)
             what = WHAT.get(sig, "duplicated delivery changes the externally visible behaviour: " + d2["what"])
-            violate_limited(res, sig, what, {"case": case, "diff": d2, "culprit": sg})
+            if sig == OWN_QU:
+                res.count("runs-that-differ-only-through-an-extra-unicast-answer-to-the-instance-itself")
+            else:
+                violate_limited(res, sig, what, {"case": case, "diff": d2, "culprit": sg})
     return diff
 
 
